@@ -161,6 +161,15 @@ def run(tier, seed):
             if dt != "float64" and dt != "complex128":
                 lo_, hi_ = 1e-30, 1e30
                 allv = np.concatenate([np.abs(np.atleast_1d(v.d)).ravel() for v in (xb, xc, xbc, xba)])
+                # the conversion factor itself is cast to the narrow dtype by NumPy: a factor that is
+                # sub-normal or overflows there (yK -> ZK is 1e-45) is outside "up to rounding"
+                facs = []
+                for (p_, q_) in ((a, b), (b, c), (a, c), (b, a)):
+                    if units[p_].dimensions == units[q_].dimensions:
+                        facs.append(abs(units[p_].base_value / units[q_].base_value))
+                if any(f_ < lo_ or f_ > hi_ for f_ in facs):
+                    chk.count("narrow-dtype-factor-range-skipped")
+                    continue
                 if np.any((allv != 0) & ((allv < lo_) | (allv > hi_))) or np.any(allv == 0):
                     chk.count("narrow-dtype-range-skipped")
                     continue
